@@ -84,6 +84,25 @@ func (c *cache) close() {
 	c.internalNodeCount = 0
 }
 
+// forget drops all in-memory nodes and makes the pending root an unresolved pointer to the given
+// (already stored) root.
+func (c *cache) forget(rootHash hash.Hash) {
+	c.lruInternal = list.New()
+	c.lruInternalPos = nil
+	c.lruLeaf = list.New()
+	c.lruLeafPos = nil
+	c.valueSize = 0
+	c.internalNodeCount = 0
+
+	c.pendingRoot = nil
+	if !rootHash.IsEmpty() {
+		c.pendingRoot = &node.Pointer{
+			Clean: true,
+			Hash:  rootHash,
+		}
+	}
+}
+
 func (c *cache) isClosed() bool {
 	return c.db == nil
 }
